@@ -12,6 +12,7 @@ import (
 	"compress/gzip"
 	"encoding/json"
 	"fmt"
+	"hash/crc32"
 	"io"
 	"log"
 	"os"
@@ -816,6 +817,10 @@ type member struct {
 	Kind string `json:"k"` // r d s h o
 	Name string `json:"n"`
 	Data []byte `json:"d,omitempty"`
+	// Lie: the member header announces Announce bytes (File.Size) while the archive holds only Data for it — a
+	// truncated download, a corrupted or hostile header.  In a tar the stream ends after Data.
+	Lie      bool  `json:"lie,omitempty"`
+	Announce int64 `json:"announce,omitempty"`
 }
 
 type archCase struct {
@@ -927,6 +932,9 @@ func writeArchive(path string, c archCase) error {
 			case "r":
 				h.Typeflag = tar.TypeReg
 				h.Size = int64(len(m.Data))
+				if m.Lie {
+					h.Size = m.Announce
+				}
 			case "d":
 				h.Typeflag = tar.TypeDir
 				h.Mode = 0o755
@@ -941,6 +949,16 @@ func writeArchive(path string, c archCase) error {
 			}
 			if err := tw.WriteHeader(h); err != nil {
 				return err
+			}
+			if m.Kind == "r" && m.Lie {
+				// the body that was really transferred, then the stream simply ends (no padding, no trailer)
+				if _, err := w.Write(m.Data); err != nil {
+					return err
+				}
+				if gz != nil {
+					return gz.Close()
+				}
+				return nil
 			}
 			if m.Kind == "r" {
 				if _, err := tw.Write(m.Data); err != nil {
@@ -957,6 +975,20 @@ func writeArchive(path string, c archCase) error {
 	case "zip":
 		zw := zip.NewWriter(f)
 		for _, m := range c.Members {
+			if m.Kind == "r" && m.Lie {
+				// stored entry whose size fields say Announce while len(Data) bytes are there
+				h := &zip.FileHeader{Name: m.Name, Method: zip.Store, Modified: mt, CRC32: crc32.ChecksumIEEE(m.Data),
+					CompressedSize64: uint64(len(m.Data)), UncompressedSize64: uint64(m.Announce)}
+				h.SetMode(0o644)
+				w, err := zw.CreateRaw(h)
+				if err != nil {
+					return err
+				}
+				if _, err := w.Write(m.Data); err != nil {
+					return err
+				}
+				continue
+			}
 			h := &zip.FileHeader{Name: m.Name, Method: zip.Deflate, Modified: mt}
 			switch m.Kind {
 			case "r":
@@ -991,7 +1023,11 @@ func encodeMembers(ms []member) string {
 		if m.Kind != "r" {
 			data = nil
 		}
-		parts = append(parts, fmt.Sprintf("%s:%s:%s", m.Kind, hexs(m.Name), gen.Hex(data)))
+		p := fmt.Sprintf("%s:%s:%s", m.Kind, hexs(m.Name), gen.Hex(data))
+		if m.Kind == "r" && m.Lie {
+			p += fmt.Sprintf(":%d", m.Announce) // what the header announces
+		}
+		parts = append(parts, p)
 	}
 	return strings.Join(parts, ",")
 }
@@ -1001,6 +1037,11 @@ func archShape(c archCase) string {
 	for _, m := range c.Members {
 		if m.Kind == "r" {
 			reg++
+		}
+	}
+	for _, m := range c.Members {
+		if m.Kind == "r" && m.Lie {
+			return "lying-size"
 		}
 	}
 	switch {
@@ -1038,24 +1079,58 @@ func (e *env) runArch(c archCase) {
 	case "arch", "garbage":
 		idx := filepath.Join(base, "idx")
 		cls, errText := "ok", ""
-		func() {
-			defer func() {
-				if r := recover(); r != nil {
-					cls, errText = "panic", fmt.Sprint(r)
+		if c.Op == "garbage" || shape == "lying-size" {
+			// archives that are not what they claim to be are indexed in a child process with a bounded address
+			// space: a run-time panic, a fatal error (an allocation sized by a header field) or a hang is then an
+			// observation ("panic" / "crash") instead of the end of the harness
+			cls, errText = indexInChild(path, idx, c.Strip, c.SizeMax)
+		} else {
+			func() {
+				defer func() {
+					if r := recover(); r != nil {
+						cls, errText = "panic", fmt.Sprint(r)
+					}
+				}()
+				err := verifhooks.C15ArchiveIndex(verifhooks.C15ArchiveOptions{Archive: path, Name: "repo", Branch: "main", Strip: c.Strip},
+					index.Options{IndexDir: idx, SizeMax: c.SizeMax, DisableCTags: true, ShardMax: 1 << 20})
+				if err != nil {
+					cls, errText = "err", err.Error()
 				}
 			}()
-			err := verifhooks.C15ArchiveIndex(verifhooks.C15ArchiveOptions{Archive: path, Name: "repo", Branch: "main", Strip: c.Strip},
-				index.Options{IndexDir: idx, SizeMax: c.SizeMax, DisableCTags: true, ShardMax: 1 << 20})
-			if err != nil {
-				cls, errText = "err", err.Error()
-			}
-		}()
+		}
 		if c.Op == "garbage" {
 			goV, key := "", ""
-			if cls == "panic" {
-				goV, key = "archive.Index panicked on a malformed archive: "+errText, "archive-panic:garbage"
+			if cls == "panic" || cls == "crash" {
+				goV, key = "archive.Index crashed on a malformed archive: "+errText, "archive-"+cls+":garbage"
 			}
 			e.w.Emit(gen.Case{Go: goV, Key: key, Class: "garbage-" + cls, Detail: detail})
+			return
+		}
+		if shape == "lying-size" {
+			// the model: an error (the data does not amount to the announced size); the statement: no crash
+			goV, key := "", ""
+			var lm member
+			for _, m := range c.Members {
+				if m.Kind == "r" && m.Lie {
+					lm = m
+				}
+			}
+			if cls == "panic" || cls == "crash" {
+				goV = fmt.Sprintf("archive.Index crashed on a %s archive whose member header announces %d bytes while %d are there: %s",
+					c.Format, lm.Announce, len(lm.Data), errText)
+				key = "archive-" + cls + ":lying-size"
+			}
+			switch {
+			case lm.Announce < 0:
+				e.w.Count("lying-size-negative", 1)
+			case lm.Announce >= 1<<31:
+				e.w.Count("lying-size-huge", 1)
+			default:
+				e.w.Count("lying-size-moderate", 1)
+			}
+			in := fmt.Sprintf("arch %d %d %s", c.Strip, c.SizeMax, encodeMembers(c.Members))
+			e.w.Emit(gen.Case{In: in, Impl: cls + " -", Go: goV, Key: key, Class: "e2e-arch-" + c.Format + "-lying-size-" + cls,
+				Nontrivial: true, Detail: detail})
 			return
 		}
 		if cls == "err" {
@@ -1132,6 +1207,176 @@ func genGarbage(r *gen.Rand) archCase {
 	return c
 }
 
+
+// ---------------------------------------------------------------- archive.Index in a child process
+
+const childEnv = "ZOEKT_VERIF_C15_CHILD"
+
+type childReq struct {
+	Path    string `json:"path"`
+	Idx     string `json:"idx"`
+	Strip   int    `json:"strip"`
+	SizeMax int    `json:"size_max"`
+}
+
+type childResp struct {
+	Cls string `json:"cls"`
+	Err string `json:"err"`
+}
+
+// childAddressSpace bounds the child's virtual memory: an allocation sized by a lying header field fails at once.
+const childAddressSpace = 6 << 30
+
+// runChild: a line server (one request per line, one response per line) so that the start-up cost is paid once;
+// a request that kills the process is seen by the parent as a dead child, which is then restarted.
+func runChild() {
+	log.SetOutput(io.Discard)
+	lim := syscall.Rlimit{Cur: childAddressSpace, Max: childAddressSpace}
+	_ = syscall.Setrlimit(syscall.RLIMIT_AS, &lim)
+	in := bufio.NewReaderSize(os.Stdin, 1<<20)
+	out := bufio.NewWriter(os.Stdout)
+	for {
+		line, err := in.ReadBytes('\n')
+		if len(bytes.TrimSpace(line)) > 0 {
+			var req childReq
+			resp := childResp{Cls: "ok"}
+			if jerr := json.Unmarshal(line, &req); jerr != nil {
+				resp = childResp{Cls: "bad-request", Err: jerr.Error()}
+			} else {
+				func() {
+					defer func() {
+						if r := recover(); r != nil {
+							resp = childResp{Cls: "panic", Err: fmt.Sprint(r)}
+						}
+					}()
+					err := verifhooks.C15ArchiveIndex(verifhooks.C15ArchiveOptions{Archive: req.Path, Name: "repo", Branch: "main", Strip: req.Strip},
+						index.Options{IndexDir: req.Idx, SizeMax: req.SizeMax, DisableCTags: true, ShardMax: 1 << 20})
+					if err != nil {
+						resp = childResp{Cls: "err", Err: err.Error()}
+					}
+				}()
+			}
+			b, _ := json.Marshal(resp)
+			out.Write(b)
+			out.WriteByte('\n')
+			out.Flush()
+		}
+		if err != nil {
+			return
+		}
+	}
+}
+
+type childProc struct {
+	cmd    *exec.Cmd
+	in     io.WriteCloser
+	out    *bufio.Reader
+	stderr *bytes.Buffer
+}
+
+var archChild *childProc
+
+func (c *childProc) kill() {
+	if c.cmd != nil {
+		c.in.Close()
+		c.cmd.Process.Kill()
+		c.cmd.Wait()
+		c.cmd = nil
+	}
+}
+
+func stopChild() {
+	if archChild != nil {
+		archChild.kill()
+		archChild = nil
+	}
+}
+
+// indexInChild: class ok | err | panic (recovered run-time panic) | crash (the process died or hung) and a text.
+func indexInChild(path, idx string, strip, sizeMax int) (string, string) {
+	if archChild == nil {
+		c := &childProc{stderr: &bytes.Buffer{}}
+		c.cmd = exec.Command(os.Args[0])
+		c.cmd.Env = append(os.Environ(), childEnv+"=1")
+		c.cmd.Stderr = c.stderr
+		var err error
+		if c.in, err = c.cmd.StdinPipe(); err != nil {
+			panic(err)
+		}
+		o, err := c.cmd.StdoutPipe()
+		if err != nil {
+			panic(err)
+		}
+		c.out = bufio.NewReaderSize(o, 1<<20)
+		if err := c.cmd.Start(); err != nil {
+			panic(err)
+		}
+		archChild = c
+	}
+	c := archChild
+	spec, _ := json.Marshal(childReq{Path: path, Idx: idx, Strip: strip, SizeMax: sizeMax})
+	c.in.Write(append(spec, '\n'))
+	type res struct {
+		line []byte
+		err  error
+	}
+	ch := make(chan res, 1)
+	go func() {
+		l, err := c.out.ReadBytes('\n')
+		ch <- res{l, err}
+	}()
+	var resp childResp
+	select {
+	case r := <-ch:
+		if r.err == nil && json.Unmarshal(bytes.TrimSpace(r.line), &resp) == nil && resp.Cls != "" {
+			return resp.Cls, resp.Err
+		}
+		c.cmd.Wait() // the child died while serving this request
+		why := fmt.Sprintf("%v: %s", c.cmd.ProcessState, firstLine(strings.TrimSpace(c.stderr.String())))
+		c.cmd = nil
+		archChild = nil
+		return "crash", why
+	case <-time.After(120 * time.Second):
+		c.kill()
+		archChild = nil
+		return "crash", "no answer within 120s"
+	}
+}
+
+var announcePool = []int64{1 << 20, 1 << 31, 1<<32 + 5, 1 << 33, 1 << 36, 1 << 40, 1 << 50, 1 << 60, 1 << 62, 1<<63 - 1}
+
+// genLyingArch: an archive one of whose regular members announces more (or, in a zip, a negative number of) bytes than
+// it holds.  In a tar the stream ends after that member's data; in a zip the entry can sit anywhere.
+func genLyingArch(r *gen.Rand) archCase {
+	c := genArchCase(r, "arch")
+	data := genContent(r, 1<<20)
+	if len(data) > 64 {
+		data = data[:64]
+	}
+	lm := member{Kind: "r", Name: genMemberName(r, "repo-1a2b3c"), Data: data, Lie: true}
+	switch r.Intn(8) {
+	case 0:
+		lm.Announce = int64(len(data)) + 1
+	case 1:
+		lm.Announce = int64(len(data)) + int64(r.Range(2, 4096))
+	default:
+		lm.Announce = gen.Pick(r, announcePool)
+	}
+	if c.Format == "zip" {
+		if r.Chance(1, 4) {
+			lm.Announce = gen.Pick(r, []int64{-1, -1 << 63, -1 << 40}) // UncompressedSize64 ≥ 2^63: negative after the conversion to int64
+		}
+		pos := r.Intn(len(c.Members) + 1)
+		ms := append([]member{}, c.Members[:pos]...)
+		ms = append(ms, lm)
+		c.Members = append(ms, c.Members[pos:]...)
+	} else {
+		keep := r.Intn(len(c.Members) + 1)
+		c.Members = append(append([]member{}, c.Members[:keep]...), lm)
+	}
+	return c
+}
+
 // ---------------------------------------------------------------- main
 
 func (e *env) runDetail(raw json.RawMessage) {
@@ -1191,6 +1436,10 @@ func detailOf(path string) json.RawMessage {
 }
 
 func main() {
+	if os.Getenv(childEnv) != "" {
+		runChild()
+		return
+	}
 	f := gen.ParseFlags()
 	log.SetOutput(io.Discard) // the builder logs every shard it finishes
 	w := gen.NewWriter(f.Out)
@@ -1213,6 +1462,7 @@ func main() {
 	}
 	e := &env{w: w, drv: &driver{bin: bin}, work: work}
 	defer e.drv.stop()
+	defer stopChild()
 
 	if f.Replay != "" {
 		e.runDetail(detailOf(f.Replay))
@@ -1259,7 +1509,7 @@ func main() {
 	}
 	phase("walk")
 	// end to end: real indexArg / archive.Index, shards read back
-	for i := 0; i < f.N(50, 400); i++ {
+	for i := 0; i < f.N(40, 400); i++ {
 		c := genDirCase(r, "dir")
 		if i%4 == 3 { // a size limit most files exceed, with a whitelist most of them match
 			c.SizeMax = r.Range(8, 24)
@@ -1267,14 +1517,22 @@ func main() {
 		}
 		e.runDir(c)
 	}
+	phase("e2e-dir")
 	// the command line itself (flag parsing, main): the same oracle and model
-	for i := 0; i < f.N(12, 120); i++ {
+	for i := 0; i < f.N(5, 120); i++ {
 		e.runDir(genDirCase(r, "cli"))
 	}
-	for i := 0; i < f.N(60, 500); i++ {
+	phase("e2e-cli")
+	for i := 0; i < f.N(50, 500); i++ {
 		e.runArch(genArchCase(r, "arch"))
 	}
+	phase("e2e-arch")
 	for i := 0; i < f.N(40, 400); i++ {
 		e.runArch(genGarbage(r))
+	}
+	phase("garbage")
+	// archives whose member headers lie about the size (truncated downloads, hostile headers)
+	for i := 0; i < f.N(40, 600); i++ {
+		e.runArch(genLyingArch(r))
 	}
 }
